@@ -2,6 +2,7 @@ package sched
 
 import (
 	"fmt"
+	"os"
 	"hash/fnv"
 	"sort"
 	"strings"
@@ -260,6 +261,13 @@ func (x *Explorer) runOne(prefix []string) *Exec {
 			}
 			if idx < 0 {
 				ex.Diverged = true
+				if os.Getenv("VERIF_DEBUG") != "" {
+					var ks []string
+					for _, c := range cs {
+						ks = append(ks, c.Key)
+					}
+					fmt.Fprintf(os.Stderr, "DIVERGED at %d: want %q have %v\n  prefix %v\n", i, prefix[i], ks, prefix)
+				}
 				break
 			}
 		} else if x.visited != nil {
@@ -316,7 +324,9 @@ func (x *Explorer) runOne(prefix []string) *Exec {
 // finish tears the world down.
 func (x *Explorer) finish() {
 	Close()
+	Drain() // leftovers that were past a seam finish their store call before the world is closed
 	x.Sc.Teardown()
+	Drain()
 }
 
 // Explore runs the whole bounded search for the scenario.
